@@ -63,6 +63,14 @@ def grahame_sigma(psi, ions, eps_r, TK):
     return v if psi >= 0 else -v
 
 
+def grahame_rounding_floor(ions, eps_r, TK, ulps=16.0):
+    """Near-zero handling for the Grahame charge: formed in double precision as sum c_i (exp(-z_i y) - 1), the sum carries an absolute
+    rounding error of a few ulp of sum c_i (the terms linear in y cancel between cations and anions), i.e. the charge cannot be
+    resolved below sqrt(2000 eps eps0 R T * ulps * 2.2e-16 * sum c_i)  (about 1e-9 .. 4e-9 C/m2 for 0.1 .. 1 molal)."""
+    tot = sum(c for z, c in ions if z != 0.0 and c > 0.0)
+    return math.sqrt(2000.0 * eps_r * EPS0 * R * TK * ulps * 2.220446049250313e-16 * tot)
+
+
 def ccm_sigma(capacitance, psi):
     return capacitance * psi
 
